@@ -93,11 +93,10 @@ func bsonDoc(v *V, m mode) encSet {
 	}
 	w := []wrapFn{bsonDocWrap(keys, label)}
 	if v.Rep {
-		// elements int32 0
+		// elements int32
 		kids := make([]encSet, len(el))
-		z := one([]byte{0x10, 0, 0, 0, 0}, "int32")
 		for i := range kids {
-			kids[i] = z
+			kids[i] = list{bsonElem(el[i], m).At(0)}
 		}
 		p := newProd(kids, w)
 		e := p.At(0)
@@ -128,7 +127,13 @@ func benEncs(v *V, m mode) encSet {
 			return concat(append(append([][]byte{[]byte("l")}, parts...), []byte("e"))...)
 		}}}
 		if v.Rep {
-			return one([]byte("l"+strings.Repeat("i0e", len(el))+"e"), fmt.Sprintf("list(%dx)", len(el)))
+			var sb strings.Builder
+			sb.WriteString("l")
+			for _, e := range el {
+				sb.WriteString("i" + e.Int().String() + "e")
+			}
+			sb.WriteString("e")
+			return one([]byte(sb.String()), fmt.Sprintf("list(%dx)", len(el)))
 		}
 		var kids []encSet
 		for _, e := range el {
@@ -155,8 +160,8 @@ func benEncs(v *V, m mode) encSet {
 		if v.Rep {
 			var sb strings.Builder
 			sb.WriteString("d")
-			for _, k := range keys {
-				sb.WriteString(strconv.Itoa(len(k)) + ":" + k + "i0e")
+			for i, k := range keys {
+				sb.WriteString(strconv.Itoa(len(k)) + ":" + k + "i" + el[i].Int().String() + "e")
 			}
 			sb.WriteString("e")
 			return one([]byte(sb.String()), fmt.Sprintf("dictionary(%dx)", len(el)))
@@ -473,7 +478,10 @@ func berEncs(v *V, m mode) encSet {
 		el := v.Elems()
 		wraps := berSeqWraps(nil, m.full)
 		if v.Rep {
-			body := []byte(strings.Repeat("\x02\x01\x00", len(el)))
+			var body []byte
+			for _, e := range el {
+				body = append(body, berTLVmin(0x02, twosComplement(e.Int()))...)
+			}
 			return newProd([]encSet{one(body, fmt.Sprintf("%dx", len(el)))}, wraps)
 		}
 		var kids []encSet
